@@ -92,6 +92,13 @@ fn prefixes() -> Vec<(&'static str, &'static str)> {
         ("shrinks-a-lot", "struct\nP\n{\na\n:\nu8\n,\nb\n:\nu8\n,\n}\n\n"),
         // 1 source line -> 5 output lines, the last statement is an unbreakable long line
         ("grows-long-tail", "fn p() { let a = 1; let b = 2; let c = xxxxxxxxxxxxxxxxxxxxxxxxxxxxxxxxxxxxxxxxxxxxxxxxxxxxxxxxxxxx; }\n\n"),
+        // history inside one report: diagnostics of other kinds (unknown / deprecated attribute, lost comment)
+        // recorded before the line-level ones; the summary flags must still follow the later entries
+        ("bad-attr", "#[rustfmt::unknown_xyz]\nfn p() {}\n\n"),
+        ("deprecated-attr", "#[rustfmt_skip]\nfn p() {}\n\n"),
+        ("lost-comment", "fn p() {\n    let   z: /* d */ u8 = 1;\n}\n\n"),
+        ("bad-attr+lost-comment", "#[rustfmt::unknown_xyz]\nfn p() {\n    let   z: /* d */ u8 = 1;\n}\n\n"),
+        ("deprecated-attr+lost-comment", "#[rustfmt_skip]\nfn q() {}\n\nfn p() {\n    let   z: /* d */ u8 = 1;\n}\n\n"),
     ]
 }
 
